@@ -1328,7 +1328,8 @@ package grpctunnel
 //@   at call removeStream#1
 //@     assert[C14] @undo sendErr != nil && arg1 == str.streamID
 //@   at go#1
-//@     assert[C08,C14] @announced sendErr == nil && count("carrierSend") == 1
+//@     assert[C08,C13,C14] @announced count("carrierSend") == 1
+//@     assert[C08,C14] @sendok sendErr == nil
 //@   ensures[C08]     @oneframe count("carrierSend") <= 1 && (result1 == nil ==> count("carrierSend") == 1)
 //@   ensures[C14]     @watcher  (result1 == nil <==> count("go") == 1) && count("go") <= 1
 //@   ensures[C08,C14] @failed   result1 != nil ==> result0 == nil
